@@ -75,19 +75,31 @@ def has_dup(H):
 # ----------------------------------------------------------------------------------------------
 # e2e
 
-def make_job(jid, mode, H, attrs, style):
-  """H must already be truncated at CPython's first failure."""
+def make_job(jid, mode, H, attrs, style, history=None):
+  """H must already be truncated at CPython's first failure.  `history` (source mode only): reads interleaved
+  with class-attribute assignments/deletions after class creation, see c10_gen.random_history."""
   mros, fail, msg = g.cpython_table(H)
   lk = g.runtime_lookups(H, attrs, mros)
-  text, cls_line, probes = g.source_program(H, attrs, lk, style)
+  history = [list(op) for op in history or []] if mode == "source" else []
+  if history and g.simulate_history(mros, attrs, history) is None:
+    history = []
+  text, cls_line, probes = g.source_program(H, attrs, lk, style, history, fail)
   job = {"id": jid, "mode": mode, "H": H, "attrs": attrs, "style": style, "oracle_text": text,
-         "fail": fail, "cpy_msg": msg, "probes": probes}
+         "fail": fail, "cpy_msg": msg, "probes": probes, "history": history}
   if mode == "source":
     job.update(text=text, err_line=cls_line.get(fail))
   else:
     pyi, src, touch, probes2 = g.stub_program(H, attrs, lk)
     job.update(text=src, pyi=pyi, err_line=touch.get(fail), probes=probes2)
   return job
+
+
+def type_names(inferred):
+  """Marker class names admitted by an inferred stub type; None = admits anything (Any / unparsable)."""
+  t = inferred.replace("foo.", "")
+  if "Any" in t or not re.fullmatch(r"(?:Union\[)?[TU]\d+(?:(?:, | \| )[TU]\d+)*\]?", t):
+    return None
+  return set(re.findall(r"[TU]\d+", t))
 
 
 def cname_to_id(n):
@@ -142,8 +154,26 @@ def judge(job, out):
     if len(mro_errs) > len(good):
       issues.append(("spurious-mro-error", "extra mro-error(s): %s" % [e for e in mro_errs if e not in good][:2]))
   stub_types = dict(re.findall(r"^(\w+): (.+)$", out["pyi"], re.M))
+  nodel_vals = None
   for v, tname in sorted(cpy_vals.items()):
     got = stub_types.get(v, "<absent>").replace("foo.", "")
+    if v.startswith("h_"):
+      # history read: a violation only if the run-time type is EXCLUDED by the inferred type (a union that
+      # contains it is a widening, not a wrong lookup)
+      admitted = type_names(got) if got != "<absent>" else set()
+      if admitted is None or tname in admitted:
+        continue
+      i, n, kind = job["probes"].get(v, (None, None, None))
+      fp = "lookup-after-class-attribute-change"
+      if any(op[0] == "D" for op in job.get("history", [])):
+        # vm.del_attr does nothing by design: is the answer the one CPython gives when the `del`s are not executed?
+        if nodel_vals is None:
+          nodel_vals, _ = g.run_in_cpython("\n".join(l for l in job["oracle_text"].split("\n") if not l.startswith("del ")))
+        if nodel_vals.get(v) in admitted:
+          fp = "class-attribute-deletion-ignored"
+      issues.append((fp, "%s: CPython finds %s at that point, pytype infers %s (class C%s attr %s via %s; history %s)"
+                     % (v, tname, got, i, n, kind, job.get("history"))))
+      break
     if got != tname:
       i, n, kind = job["probes"].get(v, (None, None, None))
       issues.append(("lookup-order", "%s: CPython finds %s, pytype infers %s (class C%s attr %s via %s)"
@@ -227,33 +257,41 @@ def run_inproc(job):
 
 
 def shrink_job(job, fp, budget_s=20.0):
-  """Smaller table/attrs with the same fingerprint (time-bounded)."""
+  """Smaller table/attrs/history with the same fingerprint (time-bounded)."""
   deadline = time.time() + budget_s
   H, attrs = [list(b) for b in job["H"]], [list(a) for a in job["attrs"]]
-  def still(H2, attrs2):
-    H3, _, _, _ = g.truncate_at_first_failure(H2)
-    j = make_job(0, job["mode"], H3, attrs2[:len(H3)], job["style"])
+  hist = [list(op) for op in job.get("history") or []]
+  def still(H2, attrs2, hist2):
+    H3, mros3, _, _ = g.truncate_at_first_failure(H2)
+    if hist2 and g.simulate_history(mros3, attrs2[:len(H3)], hist2) is None:
+      return False
+    j = make_job(0, job["mode"], H3, attrs2[:len(H3)], job["style"], hist2)
     return any(f == fp for f, _ in judge(j, run_inproc(j)))
-  def drop_class(H, attrs, k):
-    if any(k in b for b in H[k + 1:]):
+  def drop_class(H, attrs, hist, k):
+    if any(k in b for b in H[k + 1:]) or any((op[2] if op[0] == "R" else op[1]) == k for op in hist):
       return None
     ren = lambda x: x - 1 if x > k else x
-    return [[ren(x) for x in b] for i, b in enumerate(H) if i != k], [a for i, a in enumerate(attrs) if i != k]
+    hist2 = [[op[0], op[1], ren(op[2]), op[3]] if op[0] == "R" else [op[0], ren(op[1])] + op[2:] for op in hist]
+    return ([[ren(x) for x in b] for i, b in enumerate(H) if i != k], [a for i, a in enumerate(attrs) if i != k], hist2)
   changed = True
   while changed and time.time() < deadline:
     changed = False
+    for i in range(len(hist) - 1, -1, -1):
+      h2 = hist[:i] + hist[i + 1:]
+      if time.time() < deadline and still(H, attrs, h2):
+        hist = h2; changed = True
     for k in range(len(H) - 1, 0, -1):
-      c = drop_class(H, attrs, k)
+      c = drop_class(H, attrs, hist, k)
       if c and len(c[0]) > 1 and time.time() < deadline and still(*c):
-        H, attrs = c; changed = True
+        H, attrs, hist = c; changed = True
         break
     for i in range(1, len(attrs)):
       for n in list(attrs[i]):
         a2 = [list(a) for a in attrs]; a2[i].remove(n)
-        if time.time() < deadline and still(H, a2):
+        if time.time() < deadline and still(H, a2, hist):
           attrs = a2; changed = True
   H3, _, _, _ = g.truncate_at_first_failure(H)
-  return make_job(job["id"], job["mode"], H3, attrs[:len(H3)], job["style"])
+  return make_job(job["id"], job["mode"], H3, attrs[:len(H3)], job["style"], hist)
 
 
 # ----------------------------------------------------------------------------------------------
@@ -351,7 +389,7 @@ def load_corpus():
   cdir = os.path.join(common.CORPUS, "C10")
   for f in sorted(os.listdir(cdir)) if os.path.isdir(cdir) else []:
     d = json.load(open(os.path.join(cdir, f)))
-    out.append((f, d["H"], d.get("attrs")))
+    out.append((f, d["H"], d.get("attrs"), d.get("history")))
   return out
 
 
@@ -380,7 +418,7 @@ def run(res):
 
   # ---- inputs -------------------------------------------------------------------------------
   corpus = load_corpus()
-  tables = [("corpus:" + f, H) for f, H, _ in corpus]
+  tables = [("corpus:" + f, H) for f, H, _, _ in corpus]
   ex = g.exhaustive(5 if thorough else 4, 3)
   tables += [("ex%d" % k, H) for k, H in enumerate(ex)]
   n_rand = 6000 if thorough else 700
@@ -393,7 +431,8 @@ def run(res):
 
   # e2e jobs: corpus; exhaustive tables stratified by CPython's verdict; random tables (truncated at the first refusal)
   n_e2e = 6000 if thorough else 560
-  e2e_tabs = [(H, a) for _, H, a in corpus]
+  e2e_tabs = [(H, a) for _, H, a, _ in corpus]
+  corpus_hist = {k: c[3] for k, c in enumerate(corpus)}
   r2 = common.rng(res.seed, "c10", "e2e")
   groups = {"ok": [], "inc": [], "dup": []}
   for H in ex:
@@ -412,9 +451,16 @@ def run(res):
     attrs = (attrs or g.random_attrs(r2, H))[:len(H)]
     stub_frac = 0.4 if thorough else 0.25
     mode = "stub" if r2.random() < stub_frac else "source"
-    jobs.append(make_job(len(jobs), mode, H, attrs, r2.randrange(4)))
+    style = r2.randrange(4)
+    hist = None
+    if corpus_hist.get(k) is not None:
+      hist = corpus_hist[k]
+    elif mode == "source" and r2.random() < 0.85:
+      created = g.cpython_table(H)[0]
+      hist = g.random_history(r2, created, attrs)
+    jobs.append(make_job(len(jobs), mode, H, attrs, style, hist))
     if k < len(corpus):   # corpus tables go through both modes
-      jobs.append(make_job(len(jobs), "stub" if mode == "source" else "source", H, attrs, 1))
+      jobs.append(make_job(len(jobs), "stub" if mode == "source" else "source", H, attrs, 1, corpus_hist.get(k)))
   res.extra["t_generate_s"] = round(time.time() - t0, 1)
 
   common.build_cfg()
@@ -539,7 +585,8 @@ def run(res):
   e2e_hist = {"source": 0, "stub": 0, "cpython-refuses-last-class": 0, "with-repeated-base": 0, "not-explorable": 0}
   fp_seen = {}
   n_unobserved = 0
-  lookups = []     # (job, class, name, cpython's defining class, pytype's defining class or None)
+  lookups = []     # one dict per compared read, see below
+  n_hist_ops = 0
   for job in jobs:
     out = results.get(job["id"])
     if out is None:
@@ -561,11 +608,26 @@ def run(res):
     if not out.get("exc"):
       cpy_vals, _ = g.run_in_cpython(job["oracle_text"])
       stub_types = dict(re.findall(r"^(\w+): (.+)$", out["pyi"], re.M))
+      body_tab = [list(a) for a in job["attrs"]]
+      body_mk = {c: "T%d" % c for c in range(len(job["H"]))}
       for v, (ci, n, kind) in job["probes"].items():
-        if kind == "instance" or v not in cpy_vals:
+        if kind == "instance" or v not in cpy_vals or v.startswith("h_"):
           continue
-        pt = re.match(r"^(?:foo\.)?T(\d+)$", stub_types.get(v, ""))
-        lookups.append((job, ci, n, int(cpy_vals[v][1:]), int(pt.group(1)) if pt else None))
+        lookups.append({"job": job, "ci": ci, "n": n, "tab_c": body_tab, "tab_py": body_tab, "mk_c": body_mk, "mk_py": body_mk,
+                        "cpy": cpy_vals[v], "py": stub_types.get(v, "<absent>").replace("foo.", "")})
+      if job.get("history"):
+        created = g.cpython_table(job["H"])[0]
+        att = job["attrs"][:len(created)]
+        rc = g.simulate_history(created, att, job["history"])
+        rp = g.simulate_history(created, att, job["history"], ignore_deletes=True)   # vm.del_attr does nothing
+        n_hist_ops += len(job["history"])
+        for k, ((_, dc, _, _), (_, dp, _, _)) in enumerate(zip(rc, rp)):
+          v = "h_%d" % k
+          ci, n, kind = job["probes"][v]
+          tab = lambda d: [[]] + [sorted(d[i]) for i in range(1, len(created))]
+          lookups.append({"job": job, "ci": ci, "n": n, "tab_c": tab(dc), "tab_py": tab(dp),
+                          "mk_c": {c: dc[c].get(n) for c in dc}, "mk_py": {c: dp[c].get(n) for c in dp},
+                          "cpy": cpy_vals.get(v), "py": stub_types.get(v, "<absent>").replace("foo.", ""), "hist": True})
     if len(res.samples) < 4 and nontrivial and len(job["H"]) >= 5 and not issues:
       res.sample({"mode": job["mode"], "H": job["H"], "attrs": job["attrs"], "cpython_refuses": job["fail"],
                   "pytype_errors": out["errors"], "observed_compute_mro": obs})
@@ -589,7 +651,8 @@ def run(res):
         what += " (shrink failed: %s)" % e
     if fp in res.known or len(res.violations) < 3:     # at most 3 reported violations
       res.violation(fp, "%s [%d programs; smallest: mode=%s H=%s]" % (what, len(lst), job["mode"], job["H"]),
-                    {"kind": "e2e", "mode": job["mode"], "H": job["H"], "attrs": job["attrs"], "style": job["style"]})
+                    {"kind": "e2e", "mode": job["mode"], "H": job["H"], "attrs": job["attrs"], "style": job["style"],
+                     "history": job.get("history") or [], "program": job["text"]})
   # observed compute_mro tables vs the model, for both values of dupcheck
   res.obligation("e2e-observation:compute_mro-recorded-for-every-class", n_unobserved == 0,
                  "%d programs without a recorded compute_mro call for some class" % n_unobserved)
@@ -610,20 +673,34 @@ def run(res):
                  "%d observed tables repeat a base" % (len(bad_f), bad_f[:1], len(bad_tr), bad_tr[:1], n_dup_obs))
   # attribute lookup: model's lookup_c vs what CPython found, model's lookup_py vs what pytype inferred
   name_id = {n: k + 1 for k, n in enumerate(g.ATTR_NAMES)}
-  model_l = run_model(exe, ["L %s %s %d %d" % (line_ll(j["H"]), line_ll([[name_id[x] for x in a] for a in j["attrs"]]), ci, name_id[n])
-                            for j, ci, n, _, _ in lookups])
+  def l_line(e, tab):
+    Hc = e["job"]["H"][:len(tab)] if e.get("hist") else e["job"]["H"]
+    tab = tab + [[] for _ in range(len(Hc) - len(tab))]
+    return "L %s %s %d %d" % (line_ll(Hc), line_ll([[name_id[x] for x in a] for a in tab]), e["ci"], name_id[e["n"]])
+  model_lc = run_model(exe, [l_line(e, e["tab_c"]) for e in lookups])
+  model_lp = run_model(exe, [l_line(e, e["tab_py"]) for e in lookups])
   bad_lc, bad_lp = [], []
-  for (j, ci, n, cdef, pdef), mo in zip(lookups, model_l):
-    lc, lp_f, lp_t = [x.strip() for x in mo.split("|")]
-    if lc != str(cdef):
-      bad_lc.append((j["H"], j["attrs"], ci, n, "cpython=%s model=%s" % (cdef, lc)))
-    lp = lp_t if flag == "true" else lp_f
-    if lp != str(pdef):
-      bad_lp.append((j["mode"], j["H"], j["attrs"], ci, n, "pytype=%s model=%s" % (pdef, lp)))
+  n_widened = 0
+  for e, moc, mop in zip(lookups, model_lc, model_lp):
+    lc = moc.split("|")[0].strip()
+    lp = mop.split("|")[2 if flag == "true" else 1].strip()
+    want_c = e["mk_c"].get(int(lc)) if lc != "-" else None
+    want_p = e["mk_py"].get(int(lp)) if lp != "-" else None
+    ctx_ = (e["job"]["mode"], e["job"]["H"], e["job"]["attrs"], e["job"].get("history"), e["ci"], e["n"])
+    if want_c != e["cpy"]:
+      bad_lc.append(ctx_ + ("cpython=%s model=%s" % (e["cpy"], want_c),))
+    if e.get("hist") and type_names(e["py"]) != {e["py"]}:
+      n_widened += 1          # pytype inferred a union / Any for a read after an assignment: outside the lookup model
+      continue
+    if want_p != e["py"]:
+      bad_lp.append(ctx_ + ("pytype=%s model=%s" % (e["py"], want_p),))
   res.obligation("correspondence:lookup_c-vs-cpython-getattr", not bad_lc,
                  "%d of %d lookups disagree; first: %s" % (len(bad_lc), len(lookups), bad_lc[:1]))
   res.obligation("correspondence:lookup_py-vs-pytype-inferred-attribute-type", not bad_lp,
                  "%d of %d lookups disagree; first: %s" % (len(bad_lp), len(lookups), bad_lp[:1]))
+  res.extra["history_reads_compared"] = sum(1 for e in lookups if e.get("hist"))
+  res.extra["history_ops"] = n_hist_ops
+  res.extra["history_reads_widened_by_pytype"] = n_widened
   res.extra["lookups_compared"] = len(lookups)
   # which theorems speak about this tree
   res.extra["theorems_applicable"] = (
@@ -662,7 +739,7 @@ def replay(res, path):
     print("oracle           :", issues or "agree")
     return 1 if issues else 0
   H = g.truncate_at_first_failure(d["H"])[0]
-  job = make_job(0, d["mode"], H, d["attrs"][:len(H)], d.get("style", 0))
+  job = make_job(0, d["mode"], H, d["attrs"][:len(H)], d.get("style", 0), d.get("history"))
   out = run_inproc(job)
   print(job["text"] if job["mode"] == "source" else job["pyi"] + "---\n" + job["text"])
   print("cpython :", g.run_in_cpython(job["oracle_text"]))
